@@ -39,6 +39,7 @@ ALPHABET = {
     "N(r#kw)": ("N", "destr", 0, "r#type"),
     "&r#id": ("refi", "destr", 0, "r#v_raw"),
 }
+IMPL_ALPHABET_EXTRA = {"=__impl": ("i32", "plain", 0, "__impl"), "N(=__impl)": ("N", "destr", 0, "__impl"), "=__impl_": ("i32", "plain", 0, "__impl_")}
 SPECIAL_ONCE = {"N(_u)", "N(=fn_)", "mut =fn", "ref =fn", "N(r#kw)", "&r#id", "r#=arg0", "=fn", "=fn_", "=fn__", "=arg0", "=arg1", "=_arg1", "N(=fn)", "r#=fn"}
 
 
@@ -162,6 +163,105 @@ def check_names(c, rep, pinned=None):
     c.meta["observed_names"] = names
 
 
+IMPL_SYM = "=__impl"     # the name entrait invents for the `&Impl<T>` parameter of delegation-target traits
+
+
+def impl_block_case(cid, lst, dynamic):
+    """The list as parameters of a fn inside an entraited impl block (delegation-target trait, static or dynamic
+    selection): the generated trait method gets an invented `__impl` parameter in front of the list."""
+    from ..gen.fns import SUPPORT
+    f = make_fn(lst, False)
+    tys = [p_.type_text() for p_ in f.params]
+    L = sorted({SUPPORT[n] for p_ in f.params for n in p_.ty.needs})
+    L.append("#[::entrait::entrait(SubjImpl, delegate_by = %s)]" % ("ref" if dynamic else "DelegateSubj"))
+    L.append("pub trait Subj { fn %s(&self%s) -> ::std::string::String; }" % (FN, "".join(", p%d: %s" % (i, t) for i, t in enumerate(tys))))
+    L.append("pub struct X;")
+    binds = [b for p_ in f.params for b in p_.bindings()]
+    L.append("#[::entrait::entrait%s] /*@inv*/" % ("(ref)" if dynamic else ""))
+    L.append("impl SubjImpl for X {")
+    L.append("    pub fn %s<D>(deps: &D%s) -> ::std::string::String { let _ = deps; ::std::format!(\"{:?}\", (%s)) }" % (
+        FN, "".join(", " + p_.decl() for p_ in f.params), "".join("&%s, " % b for b in binds)))
+    L.append("}")
+    L.append("pub struct App;")
+    if dynamic:
+        L.append("impl ::core::convert::AsRef<dyn SubjImpl<App>> for App { fn as_ref(&self) -> &(dyn SubjImpl<App> + 'static) { &X } }")
+    else:
+        L.append("impl DelegateSubj<Self> for App { type Target = X; }")
+    D = ["pub fn run() {", "    let app = ::entrait::Impl::new(App);", '    ::vrt::phase("impl-list");']
+    s1, e1, d1 = f.call_args(1, "t")
+    s2, e2, _d2 = f.call_args(1, "d")
+    D += ["    " + x for x in s1 + s2]
+    D.append('    ::vrt::kv("via_trait", Subj::%s(&app%s));' % (FN, "".join(", " + e for e in e1)))
+    D.append('    ::vrt::kv("direct", X::%s(&app%s));' % (FN, "".join(", " + e for e in e2)))
+    D.append("}")
+    want = "()" if not d1 else ("(%s,)" % d1[0] if len(d1) == 1 else "(%s)" % ", ".join(d1))
+    return core.Case(cid, "\n".join(L + D) + "\n", meta={"impl_list": True, "list": list(lst), "dynamic": dynamic, "want": want,
+                                                          "nontrivial": True, "spec": {"name": FN, "no_deps": False},
+                                                          "expected": expected_names(lst, f)})
+
+
+def impl_method_params(c):
+    """Parameter names of the delegation-target trait method generated for the impl block."""
+    recs = [r for r in c.records if r["status"] == "end" and tok.item_kind(r["input"])["kind"] == "impl"]
+    if not recs:
+        return None
+    for it in tok.split_items(recs[0]["output"]):
+        k = tok.item_kind(it)
+        if k["kind"] == "impl" and any(tok.is_i(t, "SubjImpl") for t in it[:-1]):
+            for m in tok.split_items(it[-1]["s"]):
+                mk = tok.item_kind(m)
+                if mk["kind"] == "fn" and mk["name"] == FN:
+                    par = next(t for t in m[mk["at"]:] if tok.is_g(t, "("))
+                    res = []
+                    for p_ in tok.split_commas(par["s"]):
+                        ci = next((i for i, t in enumerate(p_) if tok.is_p(t, ":")), None)
+                        res.append(None if ci is None else p_[:ci])
+                    return res
+    return None
+
+
+def check_impl_list(c, rep):
+    m = c.meta
+    if c.removed is not None:
+        d = (c.removed["diags"] or [{}])[0]
+        rep.violation(c.id, "impl-block:compile:%s" % d.get("code"), "impl-block fn with parameter list %s (%s selection) does not compile: %s" % (
+            m["list"], "dynamic" if m["dynamic"] else "static", d.get("message", "")[:300]))
+        return
+    ps = impl_method_params(c)
+    if ps is None:
+        raise core.Inconclusive("cannot find the generated impl method in %s" % c.id)
+    typed = [p_ for p_ in ps if p_ is not None]
+    names = []
+    for p_ in typed:
+        if len(p_) != 1 or "i" not in p_[0]:
+            rep.violation(c.id, "impl-block:non-ident-param", "generated parameter is not a plain identifier: `%s` (list %s)" % (tok.render(p_), m["list"]))
+            return
+        names.append(p_[0]["i"])
+    if len({unraw(n) for n in names}) != len(names):
+        rep.violation(c.id, "impl-block:duplicate-names", "generated parameter names are not distinct: %s (list %s)" % (names, m["list"]))
+        return
+    user = names[len(names) - len(m["list"]):]
+    for want, got, sym in zip(m["expected"], user, m["list"]):
+        if want is not None and want != got and want != "__impl":   # (a binding named like the invented parameter gets any fresh name)
+            rep.violation(c.id, "impl-block:name-not-kept", "pattern `%s` should be named `%s`, got `%s` (all: %s)" % (sym, want, got, names))
+            return
+    rec = c.runrec.get("bin")
+    if not rec:
+        raise core.Inconclusive("no run record for %s" % c.id)
+    if rec.get("crash") or rec.get("panic"):
+        rep.violation(c.id, "impl-block:panic", "case panicked: %s" % (rec.get("panic") or rec.get("crash"))[:300])
+        return
+    ph = {p_["label"]: p_ for p_ in rec["phases"]}
+    kv = dict(ph.get("impl-list", {}).get("kv", {}))
+    if kv.get("direct") != m["want"]:
+        raise core.Inconclusive("harness: direct call of %s gave %s, generator expected %s" % (c.id, kv.get("direct"), m["want"]))
+    if kv.get("via_trait") != m["want"]:
+        rep.violation(c.id, "impl-block:not-positional", "arguments were not forwarded positionally: trait call gave %s, direct call %s (list %s)" % (
+            kv.get("via_trait"), kv.get("direct"), m["list"]))
+        return
+    rep.bump("impl_block_methods_checked")
+
+
 def build_cases(lists, label, variants, fn_name=FN):
     cases = []
     i = 0
@@ -214,6 +314,22 @@ def run(tier, seed):
     for c in hyg:
         c.meta["hygiene_only"] = True
     cases += hyg
+    # the lists as parameters of impl-block fns (delegation-target traits; static and dynamic selection): there the generated
+    # method has an invented `__impl` parameter in front, which is one more "would-be generated name"
+    ALPHABET.update(IMPL_ALPHABET_EXTRA)
+    try:
+        isyms = sorted(ALPHABET)
+        il = [()] + [l for n_ in (1, 2) for l in itertools.product(isyms, repeat=n_) if valid(l)]
+        while len(il) < (1500 if tier == "quick" else 6000):
+            l = tuple(rng.choice(isyms) for _ in range(rng.choice([3, 4, 5])))
+            if valid(l) and any(s_ in IMPL_ALPHABET_EXTRA for s_ in l):
+                il.append(l)
+        impl_cases = [impl_block_case("c16i_%05d" % i, l, dynamic=bool(i % 2)) for i, l in enumerate(il)]
+    finally:
+        for k_ in IMPL_ALPHABET_EXTRA:
+            ALPHABET.pop(k_)
+    rep.extra["impl_block_lists"] = len(impl_cases)
+    cases += impl_cases
     if tier != "quick":
         cases += build_cases(lists, "v", [(False, True, "fn"), (False, False, "mod"), (True, True, "fn")])
         l4 = [l for l in itertools.product(syms, repeat=4) if valid(l)]
@@ -234,6 +350,10 @@ def run(tier, seed):
         ws.run(b["exes"])
         selftest.verify(st)
         for c in chunk:
+            if c.meta.get("impl_list"):
+                check_impl_list(c, rep)
+                c.records, c.records_by, c.runrec = [], {}, {}
+                continue
             if not c.meta.get("hygiene_only"):
                 check_names(c, rep)
             c01.check_case(c, rep)
